@@ -296,3 +296,21 @@ package linker
 // IMPORTING file) with their Locs intact.
 //@ flow wrapper-locs-belong-to-the-printed-file.media C07: func=wrapRulesWithConditions ; in=linker ; site=store RAtMedia.Queries ; scenario=css_import_condition_mapping ; value-not-from=conditions
 //@ flow wrapper-locs-belong-to-the-printed-file.prelude C07: func=wrapRulesWithConditions ; in=linker ; site=store RKnownAt.Prelude ; scenario=css_import_condition_mapping ; value-not-from=conditions
+
+// C09: the parsed AST of a file is shared with the build context's caches and used again by the next rebuild, so code
+// generation may edit AST nodes only in copies it made itself ("Avoid mutating the original AST"). Every store into a
+// property value / expression / statement node in generateCodeForFileInChunkJS must write memory allocated right there
+// (a clone), never memory reached from the file's AST.
+//@ flow codegen-writes-only-its-own-clones.property C09: func=(*linkerContext).generateCodeForFileInChunkJS ; in=linker ; site=store Property.ValueOrNil ; scenario=json_cached_ast_mutation ; target-fresh=1
+//@ flow codegen-writes-only-its-own-clones.expr C09: func=(*linkerContext).generateCodeForFileInChunkJS ; in=linker ; site=store Expr.Data ; target-fresh=1
+//@ flow codegen-writes-only-its-own-clones.stmt C09: func=(*linkerContext).generateCodeForFileInChunkJS ; in=linker ; site=store Stmt.Data ; target-fresh=1
+
+// C15 ("a mangled property never takes a name that is in use"): every JavaScript file of the build contributes the
+// property names it uses un-mangled (AST.ReservedProps) to the set the minifier must avoid, whatever else is true of the
+// file: nothing but "is it a JS file" may exempt a file.
+//@ guarded every-file-reserves-its-property-names C15: func=(*linkerContext).mangleProps ; in=linker ; site=range *.ReservedProps ; scenario=mangle_props_cross_file_collision ; allow-only=true:phi:rangeindex+1<call len(c.graph.ReachableFiles) && true:*.Repr#1 && false:next(*)#0 && false:c.graph.ReachableFiles[*]==0
+
+// C12 ("CSS-module local names are renamed ... without collisions"): the name a local CSS name is turned into is, at
+// the moment it is recorded, neither a global name of the bundle nor a name already given to another local: on every
+// path into the recording both tables were consulted for THAT name and said no.
+//@ guarded local-css-name-is-unused C12: func=(*linkerContext).mangleLocalCSS ; in=linker ; site=mapupdate *angledProps* ; scenario=css_local_name_collides_with_global ; require-any=false:globalNames[*] && false:usedLocalNames[*]
